@@ -37,8 +37,8 @@ const noEncoderCharsets = `armscii8|cp1250|cp1251|cp1256|cp1257|cp850|cp852|cp86
 var findings = []finding{
 	// ---- process-killing (fatal error: stack overflow) ------------------------------------
 	{id: "C10-view-self-reference", frames: []string{"planbuilder.(*Builder).resolveView"}, fatal: true,
-		region:  re(`\b(or\s+replace|alter)\b.*\bview\b`),
-		witness: []string{"CREATE OR REPLACE VIEW myview AS SELECT * FROM myview"}},
+		region:  re(`\b(or\s+replace|alter)\b.*\bview\b|\brename\b`),
+		witness: []string{"CREATE VIEW v1 AS SELECT 1 AS a", "CREATE VIEW v2 AS SELECT * FROM v1", "CREATE OR REPLACE VIEW v1 AS SELECT * FROM v2", "SELECT * FROM v1"}},
 	{id: "C10-union-empty-name-recursion", frames: []string{"analyzer.exprsToTableFilters"}, fatal: true,
 		region:  re("``.*\\b(union|intersect|except)\\b|\\b(union|intersect|except)\\b.*``"),
 		witness: []string{"SELECT '' UNION SELECT 1 WHERE ``"}},
